@@ -49,6 +49,8 @@ def check(run, project):
     o2e = mod.functions().get("obj_to_events")
     if o2e is None:
         raise AnalysisError("C11: obj_to_events not found")
+    from .shared import unbound_locals
+    unbound_locals(run, project, "A8", (OBJECT,), what="the conversion fails instead of rebuilding the object")
     # ---- A1 / A2 / A3 (path summaries of obj_to_events)
     got, prefix = a123(run, mod, o2e, L)
     skip = skippable_fields(roles, L)
